@@ -2,7 +2,7 @@
    The maps from the uniform stream to the variates that starsim itself defines -- uniform, the per-agent path of randint (scaled uniform; np.floor pinned), Bernoulli, the
    explicit-to-implicit lognormal parameters, the time-unit scaling -- are REGENERATED from distributions.py / time.py (Gen/Gen_Law.v, Gen_Time.v).
    The quantile functions of the other families are SciPy's (pinned by family and parameter names) and are compared on the implementation. *)
-From SS Require Import Model.Prelude Model.L3_Units Gen.Gen_Time Gen.Gen_Law Proofs.P_Law.
+From SS Require Import Model.Prelude Model.L3_Units Gen.Gen_Time Gen.Gen_Law Proofs.P_Law Model.L1_Choice Proofs.P_Choice.
 From Coq Require Import Reals QArith.
 Local Open Scope R_scope.
 
@@ -41,3 +41,19 @@ Proof. exact dur_scaling. Qed.
 Theorem C05_rate_variates_scaled : forall v f, ~ (f == 0)%Q -> rate_values_gen v f = Ok (v / f)%Q.
 Proof. exact rate_scaling. Qed.
 Print Assumptions C05_duration_variates_scaled. Print Assumptions C05_rate_variates_scaled.
+
+(* discrete choice with probabilities p (NumPy's Generator.choice as called by ss.choice: normalised cumulative sums, searchsorted side='right'):
+   every uniform in [0,1) selects an existing option, and option i is selected exactly on an interval of length p_i / sum(p) -- the whole law *)
+Theorem C05_choice_selects_an_option : forall p u, all_nonneg p -> (0 < total p)%Q -> (0 <= u < 1)%Q -> (choice_np_norm p u < length p)%nat.
+Proof. exact np_norm_in_range. Qed.
+Theorem C05_choice_law : forall p u i, all_nonneg p -> (0 < total p)%Q -> (0 <= u)%Q -> (i < length p)%nat ->
+  (choice_np_norm p u = i <-> (psum i p / total p <= u < psum (S i) p / total p)%Q).
+Proof. exact np_norm_law. Qed.
+Theorem C05_choice_mass : forall p i, (0 < total p)%Q -> (i < length p)%nat -> (psum (S i) p / total p - psum i p / total p == nth i p 0 / total p)%Q.
+Proof. exact np_norm_mass. Qed.
+(* ss.choice.ppf (searchsorted side='left') selects the same option except on the cdf points themselves *)
+Theorem C05_choice_ppf_law : forall p u i, all_nonneg p -> (0 < u)%Q -> (i < length p)%nat -> (choice_ppf p u = i <-> (psum i p < u <= psum (S i) p)%Q).
+Proof. exact ppf_law. Qed.
+Print Assumptions C05_choice_selects_an_option. Print Assumptions C05_choice_law. Print Assumptions C05_choice_mass. Print Assumptions C05_choice_ppf_law.
+Example C05_choice_nonvacuous : all_nonneg [1#5; 3#10; 1#2]%Q /\ (0 < total [1#5; 3#10; 1#2])%Q /\ choice_np_norm [1#5; 3#10; 1#2]%Q (3#5)%Q = 2%nat /\ choice_np_norm [1#5; 3#10; 1#2]%Q (1#5)%Q = 1%nat /\ choice_ppf [1#5; 3#10; 1#2]%Q (1#5)%Q = 0%nat.
+Proof. repeat split; try (repeat constructor; discriminate); reflexivity. Qed.
